@@ -198,26 +198,35 @@ def rule_chain(ctx: Ctx, repo: Repo) -> None:
     ctx.check(ok and [n for n, _ in names] == ["RemoveEmptyContainers", "RewriteConfigDict", "RewriteLargeUnion", "RewriteGenerator"],
               "R-C07.4", TY, "DEFAULT_REWRITER chains RemoveEmptyContainers, RewriteConfigDict, RewriteLargeUnion, RewriteGenerator in this order",
               construct="DEFAULT_REWRITER = " + norm(dr))
-    # ChainedRewriter.rewrite: unfiltered loop over all rewriters, each fed the previous output
+    # ChainedRewriter.rewrite interpreted with 0..3 opaque member rewriters: each is fed the previous output, in order;
+    # and again as the second call of a history on the same chain object (no answer remembered for another type)
     ch = repo.cls(TY, "ChainedRewriter")
     rw = repo.method(ch, "rewrite")
     ctx.functions.add(rw.fq)
     p = rw.positional_params()[1]
-    loops = [x for x in walk_no_nested(rw.node) if isinstance(x, ast.For)]
-    good = False
-    if len(loops) == 1:
-        lp = loops[0]
-        body_ok = len(lp.body) == 1 and isinstance(lp.body[0], ast.Assign) and dotted(lp.body[0].targets[0]) == p and \
-            isinstance(lp.body[0].value, ast.Call) and isinstance(lp.body[0].value.func, ast.Attribute) and lp.body[0].value.func.attr == "rewrite" and \
-            dotted(lp.body[0].value.func.value) == dotted(lp.target) and len(lp.body[0].value.args) == 1 and dotted(lp.body[0].value.args[0]) == p
-        good = body_ok and dotted(lp.iter) == "self.rewriters" and not lp.orelse
-        rets = returns_of(rw)
-        good = good and len(rets) == 1 and dotted(rets[0][1]) == p
-    ctx.check(good, "R-C07.4", rw.fq, "ChainedRewriter feeds each rewriter's output to the next over all configured rewriters", construct=norm(rw.node.body[-2] if len(rw.node.body) > 1 else rw.node.body[-1])[:120])
     init = repo.method(ch, "__init__")
+    ip = init.positional_params()[1]
     stores = [x for x in walk_no_nested(init.node) if isinstance(x, ast.Assign) and dotted(x.targets[0]) == "self.rewriters"]
-    ctx.check(len(stores) == 1 and dotted(stores[0].value) == init.positional_params()[1], "R-C07.4", init.fq,
+    ctx.check(len(stores) == 1 and dotted(stores[0].value) == ip, "R-C07.4", init.fq,
               "ChainedRewriter keeps the rewriters it was given", construct="; ".join(norm(s) for s in stores))
+
+    def nested(t: V, k: int) -> V:
+        for i in range(k):
+            t = R("out", by=K(i), of=K(repr(t)))
+        return t
+
+    t1, t2 = g("List", RW.INT), g("Dict", RW.STR, union(RW.FLT, NONE_T))
+    for k in (0, 1, 2, 3):
+        chain_members = K(tuple(R("rw", id=K(i)) for i in range(k)))
+        sc1 = RewriterScenario(repo, "ChainedRewriter", "rewrite", {"rewriters": chain_members})
+        r1 = sc1.result({p: t1})
+        ctx.check(r1 == nested(t1, k), "R-C07.4", rw.fq, "ChainedRewriter feeds each rewriter's output to the next over all configured rewriters",
+                  construct=f"chain of {k}: {show(t1)} -> {str(r1)[:120]}")
+        sc2 = RewriterScenario(repo, "ChainedRewriter", "rewrite", {"rewriters": chain_members})
+        r2 = sc2.result({p: t2}, carry=sc1.last_state)
+        ctx.check(r2 == nested(t2, k), "R-C07.4", rw.fq,
+                  "a chain's answer for a type is computed from that type (the first type of the history is gone by then; nothing remembered under its address stands in)",
+                  construct=f"chain of {k}: after rewriting {show(t1)}, {show(t2)} -> {str(r2)[:120]}")
     # configs
     dc = repo.cls("monkeytype.config", "DefaultConfig")
     tr = repo.method(dc, "type_rewriter")
